@@ -36,10 +36,20 @@ def main(argv=None):
         mod.run(ctx)
         return ctx.finish()
     except MachineryFailure as e:
+        if ctx.violations and not a.replay:
+            # violations already reported (each one a recorded execution the P-layer rejected, with its replay file) stand on their own: a later
+            # step of the machinery that cannot cope with the misbehaving tree (e.g. a self-test that needs an accepted record) does not erase them
+            print("NOTE property=%s: after the violations above the machinery stopped: %s" % (pid, e))
+            ctx.cov["not_exercised"].append("run ended early after reported violations: %s" % e)
+            return ctx.finish()
         print("MACHINERY-FAILURE property=%s: %s" % (pid, e))
         return 2
     except Exception:  # a crash of the harness is never a verdict
         traceback.print_exc()
+        if ctx.violations and not a.replay:
+            print("NOTE property=%s: after the violations above the harness crashed (traceback above)" % pid)
+            ctx.cov["not_exercised"].append("run ended early after reported violations: harness crashed")
+            return ctx.finish()
         print("MACHINERY-FAILURE property=%s: harness crashed" % pid)
         return 2
 
